@@ -4,7 +4,7 @@ from fjverif.runner import Ok, Violation, Discard
 
 ID = 'C01'
 LEVEL = 'exploration'
-RULE = ('cases = execution-guided images (imagegen: words drawn when the simulated run first reads them; layouts '
+RULE = ('cases = repository programs assembled at w=32/64 (thousands of ops, real stl code) and execution-guided images (imagegen: words drawn when the simulated run first reads them; layouts '
         'compact/few/lazytail/pageedge/window/high/top/magic; w in 8/16/32/64; fjm version 0-3) plus dense random '
         'w=8 images; each is run on featured, fast and native engines through fjm_run.run with a recording device '
         'and compared with the reference machine (cause, op count, fault address, exact IO call sequence). '
@@ -20,7 +20,13 @@ def families(tier):
     return [
         {'name': 'guided', 'strategy': lambda: imagegen.images(), 'examples': 1500 if q else 30000},
         {'name': 'dense8', 'strategy': lambda: imagegen.dense_w8(), 'examples': 1200 if q else 60000},
+        {'name': 'assembled-programs', 'strategy': lambda: c07_programs(), 'examples': 8 if q else 300},
     ]
+
+
+def c07_programs():
+    from fjverif.props import c07
+    return c07.program_cases()
 
 
 def pack_bytes(bits):
@@ -80,12 +86,21 @@ def compare(case, ref, o, engine):
 
 def run_case(case):
     w = case['w']
-    segs = case['segments']
-    ref = machine.run(w, segs, case['input_bits'])
+    if case.get('kind') == 'program':
+        from fjverif.props import c07
+        try:
+            path, segs = c07.program_image(case)
+        except Exception as e:  # noqa
+            return Discard('program does not assemble here: %s' % type(e).__name__)
+        case = dict(case, segments=segs, layout='program', input_bits=[(b >> i) & 1 for b in case['input'] for i in range(8)])
+        ref = machine.run(w, segs, case['input_bits'], budget=60000)
+    else:
+        segs = case['segments']
+        ref = machine.run(w, segs, case['input_bits'])
+        path = engines.tmpdir() / 'c01.fjm'
+        engines.write_image(path, w, segs, case['version'])
     if ref.cause == machine.BUDGET:
         return Discard('reference budget')
-    path = engines.tmpdir() / 'c01.fjm'
-    engines.write_image(path, w, segs, case['version'])
     cl = classify(case, ref)
     for eng in engines.ENGINES:
         dev = engines.make_rec_device(case['input_bits'])
